@@ -82,6 +82,23 @@ Proof.
   rewrite IH by lia. f_equal. lia.
 Qed.
 
+Lemma last_app_nonnil (l r : list A) d : r <> [] -> last (l ++ r) d = last r d.
+Proof.
+  induction l as [|x t IH]; intros Hr; [reflexivity|].
+  specialize (IH Hr). cbn [app]. destruct (t ++ r) as [|y u] eqn:Et; [destruct t; cbn in Et; congruence|].
+  change (last (x :: y :: u) d) with (last (y :: u) d). exact IH.
+Qed.
+
+Lemma last_repeat (x : A) k d : last (repeat x (S k)) d = x.
+Proof.
+  induction k as [|k IH]; [reflexivity|].
+  change (repeat x (S (S k))) with (x :: repeat x (S k)).
+  change (last (x :: repeat x (S k)) d) with (last (repeat x (S k)) d). exact IH.
+Qed.
+
+Lemma forallb_repeat (P : A -> bool) x k : P x = true -> forallb P (repeat x k) = true.
+Proof. intros H. induction k; cbn; [reflexivity|]. rewrite H, IHk. reflexivity. Qed.
+
 Lemma length_tl (l : list A) : length (tl l) = length l - 1.
 Proof. destruct l; cbn; lia. Qed.
 
@@ -110,6 +127,40 @@ Proof. unfold sl_1_m1. rewrite length_removelast, length_tl. lia. Qed.
 Lemma nth_sl_1_m1 l i d : i + 2 < length l -> nth i (sl_1_m1 l) d = nth (S i) l d.
 Proof.
   intros H. unfold sl_1_m1. rewrite nth_removelast by (rewrite length_tl; lia). apply nth_tl.
+Qed.
+
+Lemma ends_decompose (l : list A) d : 2 <= length l ->
+  l = nth 0 l d :: sl_1_m1 l ++ [nth (length l - 1) l d].
+Proof.
+  destruct l as [|x t]; cbn [length]; [lia|]. intros H. cbn [nth]. f_equal.
+  unfold sl_1_m1. cbn [tl]. replace (S (length t) - 1) with (length t) by lia.
+  assert (Ht : t <> []) by (destruct t; cbn in H; [lia|discriminate]).
+  rewrite (app_removelast_last d Ht) at 1. f_equal. f_equal.
+  destruct (length t) eqn:E; [destruct t; [congruence|discriminate]|].
+  cbn [nth]. rewrite (app_removelast_last d Ht) at 2.
+  rewrite app_nth2; rewrite length_removelast, E; [|lia].
+  replace (n - (S n - 1)) with 0 by lia. reflexivity.
+Qed.
+
+Lemma adjb_of_nth (r : A -> A -> bool) (l : list A) d :
+  (forall i, S i < length l -> r (nth i l d) (nth (S i) l d) = true) -> adjb r l = true.
+Proof.
+  induction l as [|a t IH]; intros H; [reflexivity|].
+  destruct t as [|b t']; [reflexivity|].
+  change (adjb r (a :: b :: t')) with (r a b && adjb r (b :: t')).
+  apply andb_true_iff. split.
+  - apply (H 0). cbn. lia.
+  - apply IH. intros i Hi. apply (H (S i)). cbn in *. lia.
+Qed.
+
+Lemma nth_of_adjb (r : A -> A -> bool) (l : list A) d :
+  adjb r l = true -> forall i, S i < length l -> r (nth i l d) (nth (S i) l d) = true.
+Proof.
+  induction l as [|a t IH]; intros H i Hi; [cbn in Hi; lia|].
+  destruct t as [|b t']; [cbn in Hi; lia|].
+  change (adjb r (a :: b :: t')) with (r a b && adjb r (b :: t')) in H.
+  apply andb_true_iff in H. destruct H as [H1 H2].
+  destruct i; [exact H1|]. apply (IH H2 i). cbn in *. lia.
 Qed.
 
 (* ---- the open-knot-vector layout  [a]*(p+1) ++ each(interior, m) ++ [b]*(p+1) ---- *)
